@@ -143,29 +143,45 @@ def _render(addrs_spec):
 
 
 def _strong_replay_factory(cfgname, fams):
-    """Real validate_url + real numeric getaddrinfo on the model's address."""
+    """Real validate_url on the model's addresses: with the real numeric
+    resolver for a single address; for several addresses the resolver
+    answer is the list of address *texts* (only getaddrinfo is replaced,
+    ipaddress parses the text for real)."""
     def rp(model):
         from oslo_config import cfg
         from mistral.utils import egress
         from mistral import exceptions as exc
         cidrs = CONFIGS[cfgname]
         nets = _nets(cidrs)
+        vals = [int(model.get('addr%d' % i, 0)) for i in range(len(fams))]
+        denied = [bool(_oracle_denied(f, v, nets))
+                  for f, v in zip(fams, vals)]
+        if not any(denied):
+            return False, 'no denied address in the model'
         cfg.CONF.set_override('denied_cidrs', cidrs, group='action_std_http')
+        real_gai = socket.getaddrinfo
         try:
-            for i, fam in enumerate(fams):
-                v = int(model.get('addr%d' % i, 0))
-                if not _oracle_denied(fam, v, nets):
-                    continue
-                a = _mk_addr(fam, v)
-                url = ('http://%s/x' % a) if fam == 4 else \
+            if len(fams) == 1:
+                a = _mk_addr(fams[0], vals[0])
+                url = ('http://%s/x' % a) if fams[0] == 4 else \
                     ('http://[%s]:8080/x' % a)
-                try:
-                    egress.validate_url(url)
-                    return True, 'real validate_url accepted %s' % url
-                except exc.UrlNotAllowedException:
-                    pass
-            return False, 'real validate_url refused every denied address'
+            else:
+                texts = [str(_mk_addr(f, v)) for f, v in zip(fams, vals)]
+
+                def gai(host, port, *a, **k):
+                    return [(socket.AF_INET if f == 4 else socket.AF_INET6,
+                             socket.SOCK_STREAM, 6, '', (t, port))
+                            for f, t in zip(fams, texts)]
+                socket.getaddrinfo = gai
+                url = 'http://multi.example/x'
+            try:
+                egress.validate_url(url)
+                return True, 'real validate_url accepted %s -> %s' % (
+                    url, [str(_mk_addr(f, v)) for f, v in zip(fams, vals)])
+            except exc.UrlNotAllowedException:
+                return False, 'real validate_url refused it'
         finally:
+            socket.getaddrinfo = real_gai
             cfg.CONF.clear_override('denied_cidrs', group='action_std_http')
     return rp
 
